@@ -271,6 +271,10 @@ def rcs_status_words():
 def judge(name, d, kind, step_is_rf, phase, fault, out):
     """L3: the outcome of one faulty exchange judged against the property text; returns (key, what) or None"""
     if out.startswith("ok"):
+        if name in PN and kind == "tt3" and fault[0] == "payload" and step_is_rf == "poll":
+            p = bytes(fault[1])
+            if (len(p) == 2 or (len(p) == 3 and p[0] == 0)) and p[-1] & 1:
+                return ("rf-off-wrong-class", "CIU_DivIRq %02x (external field off) gave %s, expected BrokenLinkError" % (p[-1], out))
         if out == "ok none" and d == "i":
             return ("%s-host-garbage-returns-none" % name, "initiator exchange returned None instead of data or an error")
         if out.startswith("ok <"):
@@ -285,7 +289,31 @@ def judge(name, d, kind, step_is_rf, phase, fault, out):
         return ("rcs380-communication-error-escapes", "rcs380 CommunicationError left exchange()")
     if cls in DOCUMENTED or cls.startswith("IOError("):
         # specific clauses
-        if fault[0] == "errno" and name in PN and step_is_rf and (phase == "rsp" or name == "acr122"):
+        if fault[0] == "payload" and step_is_rf in (True, "incomm") and len(fault[1]) > 0:
+            p = bytes(fault[1])
+            want = None
+            if name in PN and d == "i":
+                st = p[0] & 0x3F if kind == "t1" else p[0]
+                want = None if st == 0 else ("TimeoutError" if st == 1 else "TransmissionError")
+            elif name in PN and d == "t":
+                want = None if p[0] == 0 else ("BrokenLinkError" if p[0] in (0x0A, 0x29, 0x31) else "TransmissionError")
+            elif name == "rcs380" and len(p) >= 7 and (d == "t" or step_is_rf == "incomm"):
+                word = struct.unpack("<L", p[3:7] if d == "t" else p[0:4])[0]
+                if word:
+                    want = "BrokenLinkError" if (d == "t" and word & 0x400) else ("TimeoutError" if word & 0x80 else "TransmissionError")
+            if want is not None and cls != want:
+                return ("status-wrong-class", "status in payload %s gave %s, expected %s" % (p.hex(), cls, want))
+        if name == "udp" and fault[0] == "frame" and bytes(fault[1]).startswith(b"RFOFF") and cls != "BrokenLinkError":
+            return ("rf-off-wrong-class", "RFOFF datagram gave %s, expected BrokenLinkError" % cls)
+        if name == "udp" and fault[0] == "silent" and cls != "TimeoutError":
+            return ("host-fault-wrong-class", "silent peer gave %s, expected TimeoutError" % cls)
+        if name in PN and kind == "tt3" and fault[0] == "payload" and step_is_rf == "poll":
+            p = bytes(fault[1])
+            if len(p) == 3 and p[0] != 0:
+                p = b""
+            if len(p) >= 2 and p[-1] & 1 and cls != "BrokenLinkError":
+                return ("rf-off-wrong-class", "CIU_DivIRq %02x (external field off) gave %s, expected BrokenLinkError" % (p[-1], cls))
+        if fault[0] == "errno" and name in PN and step_is_rf is True and (phase == "rsp" or name == "acr122"):
             want = "TimeoutError" if fault[1] == errno.ETIMEDOUT else "IOError(%d)" % fault[1]
             if cls != want:
                 return ("host-fault-wrong-class", "host errno %d at the RF command gave %s, expected %s" % (fault[1], cls, want))
@@ -339,7 +367,7 @@ def run(ck):
 
     reqs = []      # (request line, real outcome, descr, oracle verdict)
     nominal_dis = 0
-    keep = 1.0 if ck.thorough else 0.06
+    keep = 1.0 if ck.thorough else 0.12
 
     for name in KINDS:
         rig = Rig(name, clock)
@@ -425,7 +453,8 @@ def run(ck):
                                 for s in range(256):
                                     p = bytearray(nom)
                                     p[j] = s
-                                    faults.append(("rsp", ("payload", bytes(p)), "r:p:" + hx(p), "status"))
+                                    faults.append(("rsp", ("payload", bytes(p)), "r:p:" + hx(p),
+                                                   "status0" if j == 0 and step in rf_steps else "status"))
                             if name == "rcs380" and code in (0x04, 0x48):
                                 off = 0 if code == 0x04 else 3
                                 for wbytes in rcs_status_words():
@@ -433,15 +462,16 @@ def run(ck):
                                     p[off:off + 4] = wbytes
                                     faults.append(("rsp", ("payload", bytes(p)), "r:p:" + hx(p), "status-word"))
                         for phase, fault, tok, bucket in faults:
-                            if keep < 1.0 and bucket != "errno" and rng.random() > keep:
+                            if keep < 1.0 and bucket not in ("errno", "status0") and rng.random() > keep:
                                 continue
                             out, _, hit = rig.run(d, kind, has_data, (step, phase), fault)
                             line = "x %s %s %s %s %s %s %d %s %s" % (variant, name, d, kind, hd, brty, step, tok, nomtxt)
-                            verdict = judge(name, d, kind, step in rf_steps, phase, fault, out) if hit else \
+                            verdict = judge(name, d, kind, (("incomm" if name == "rcs380" and d == "i" else True) if step in rf_steps else
+                                                            ("poll" if name in PN and kind == "tt3" and step == 1 else False)), phase, fault, out) if hit else \
                                 ("fault-site-not-reached", "step %d/%s of %s %s %s was never executed" % (step, phase, name, d, kind))
                             reqs.append((line, out, (name, d, kind, hd, step, phase, tok), verdict))
                             ck.case((name, d, kind, hd, step, phase, tok), hit and out != out0, "%s:%s" % (name, bucket),
-                                    sample={"request": line, "impl": out} if len(ck.samples) < 3 and bucket == "status" and out.startswith("exc") else None)
+                                    sample={"request": line, "impl": out} if len(ck.samples) < 3 and bucket.startswith("status") and out.startswith("exc") else None)
 
     # ------------------------------------------------------------- frontend itself
     front = []
@@ -494,4 +524,5 @@ def run(ck):
             ck.fail("tie:c13-frontend", "model %r, implementation %r" % (rep, real), {"request": line, "model": rep, "impl": real})
     ck.tie("errmap model vs drivers (single fault at every host command)", cases=len(reqs) + len(front),
            disagreements=dis + nominal_dis, exhaustive=ck.thorough)
-    ck.notes.append("fault catalogue %s" % ("enumerated completely" if ck.thorough else "sampled (%.0f %% of the non-errno faults)" % (keep * 100)))
+    ck.notes.append("fault catalogue %s" % ("enumerated completely" if ck.thorough else
+                    "sampled (%.0f %% of the frame/status faults; all errno faults and all 256 status values of the RF commands)" % (keep * 100)))
